@@ -246,6 +246,17 @@ def _explore_task(args):
                     res["snap_miss"] += 1
                     res["validated"] += 1
                     continue
+        if bad is None and envf is not None:
+            # obligations that only the real float code can be asked (real pydantic validation, file channels):
+            # a failure there is a counterexample with concrete inputs -> candidate (replayed in a fresh interpreter)
+            extra = [l for l in b["failed"] if l not in a["failed"]]
+            if extra and not a["failed"] and not a["exception"]:
+                for l in extra[:3]:
+                    if len(res["candidates"]) < 80:
+                        res["candidates"].append({"label": l, "region": None, "inputs": {k: _jsonable(v) for k, v in envf.items()},
+                                                  "detail": "failed on the concrete (float) run only: " + str(b.get("exception"))})
+                res["validated"] += 1
+                continue
         if bad is None:
             bad = _compare_runs(a, b)
             if bad is not None and envf is not None:
